@@ -5,11 +5,9 @@ go 1.21
 require (
 	github.com/angelsolaorbaiceta/inkfem v0.0.0
 	github.com/angelsolaorbaiceta/inkgeom v0.1.5
+	github.com/angelsolaorbaiceta/inkmath v0.2.6
 )
 
-require (
-	github.com/ajstarks/svgo v0.0.0-20211024235047-1546f124cd8b // indirect
-	github.com/angelsolaorbaiceta/inkmath v0.2.6 // indirect
-)
+require github.com/ajstarks/svgo v0.0.0-20211024235047-1546f124cd8b // indirect
 
 replace github.com/angelsolaorbaiceta/inkfem => /repo
